@@ -426,7 +426,13 @@ def d6(cx: Cx, ob: Ob) -> None:
     check_expand_wrappers(cx, ob)
 
 
-def check_expand_wrappers(cx: Cx, ob: Ob) -> None:
+def check_expand_wrappers(cx: Cx, ob: Ob, only_expand_all: bool = False) -> None:
+    if not only_expand_all:
+        _check_expand_and_pair(cx, ob)
+    _check_expand_all(cx, ob)
+
+
+def _check_expand_and_pair(cx: Cx, ob: Ob) -> None:
     # expand
     fn = cx.fn(f"{CONV}.expand", ob.id)
     s = cx.summary(fn, ob.id)
@@ -481,6 +487,11 @@ def check_expand_wrappers(cx: Cx, ob: Ob) -> None:
         if pa != (("param", "prefix"), ("param", "identifier")):
             ob.violate(fn.qualname, where(fn, line), f"expand_pair builds its reference from `{show(t[2][0])[:60] if t[2] else '?'}`, not (prefix, identifier) in that order", detail="pair")
         _flags_forwarded(ob, fn, t, line, ("strict", "passthrough"))
+
+
+def _check_expand_all(cx: Cx, ob: Ob) -> None:
+    from .c01 import failure_needs_lookup
+
     # expand_all
     fn = cx.fn(f"{CONV}.expand_all", ob.id)
     s = cx.summary(fn, ob.id)
